@@ -226,6 +226,30 @@ func TestVerifReplay(t *testing.T) {
 			return
 		}
 	}
+	// --- the refusal decision follows the CURRENT number of permitted attempts
+	for _, c := range []struct {
+		trials int
+		r      CharRecipe
+		refuse bool
+	}{
+		{1, CharRecipe{Length: 8, AllowChars: "b", RequireSets: []string{"a"}}, true},                      // one attempt fails with probability 1/256 > 1e-9
+		{2000, CharRecipe{Length: 4, AllowChars: "abcdefghijklmnopqrstuvwxyz", RequireSets: []string{"1"}}, false}, // p ~ 0.14: 0.86^2000 is far below 1e-9
+		{200, CharRecipe{Length: 4, AllowChars: "abcdefghijklmnopqrstuvwxyz", RequireSets: []string{"1"}}, false},
+	} {
+		old := MaxTrials
+		MaxTrials = c.trials
+		p, err := c.r.Generate()
+		MaxTrials = old
+		in := map[string]interface{}{"recipe": c.r, "MaxTrials": c.trials, "MaxFailRate": MaxFailRate}
+		if c.refuse && (err == nil || !strings.Contains(err.Error(), "too high")) {
+			vReport(vHit{Input: in, Observed: vSprint("password=", p != nil, " err=", err), Required: vSprint("refused: with ", c.trials, " permitted attempt(s) all fail with probability above the limit")})
+			return
+		}
+		if !c.refuse && err != nil && strings.Contains(err.Error(), "too high") {
+			vReport(vHit{Input: in, Observed: vSprint("refused: ", err), Required: vSprint("not refused: with ", c.trials, " permitted attempts the failure chance is far below the limit")})
+			return
+		}
+	}
 	// --- the stream on which every attempt fails, and the attempt limit
 	for _, mt := range []int{200, 3, 1} {
 		old := MaxTrials
